@@ -66,11 +66,37 @@ func (in *Instance) storageOp(info StorageInfo, do func() error) error {
 	ord := in.opCount
 	armed := in.crashArmed && in.crashAt == ord
 	before := in.crashBefore
+	torn := in.crashTorn
 	if armed {
 		in.crashArmed = false
 	}
 	in.smu.Unlock()
 	ctx := callerCtx()
+	if armed && torn > 0 && info.Op == "log.append" {
+		// the process dies inside the append: the call runs on the live directory (the instance is a zombie
+		// from now on and the history never learns of the call), the image keeps only a part of the bytes it wrote
+		lf := filepath.Join(in.node.dir, "log", "log.bin")
+		var sizeBefore int64
+		if st, err := os.Stat(lf); err == nil {
+			sizeBefore = st.Size()
+		}
+		in.opmu.Lock()
+		if in.dead.Load() {
+			in.opmu.Unlock()
+			return do()
+		}
+		err := do()
+		in.opmu.Unlock()
+		in.dieWith(fmt.Sprintf("inside storage op %d (%s in %s), torn tail", ord, info.Op, ctx), info.Op, ctx, false, func(img string) {
+			f := filepath.Join(img, "log", "log.bin")
+			if st, e := os.Stat(f); e == nil && st.Size() > sizeBefore+1 {
+				span := st.Size() - sizeBefore - 1
+				cut := sizeBefore + 1 + int64(torn)%span
+				_ = os.Truncate(f, cut)
+			}
+		}, info.Ents)
+		return err
+	}
 	if armed && before {
 		in.die(fmt.Sprintf("before storage op %d (%s in %s)", ord, info.Op, ctx), info.Op, ctx, false)
 		return do()
